@@ -8,10 +8,10 @@ pub fn prop() -> Prop {
     Prop {
         id: "C16",
         level: "fault_enumeration",
-        rule: "inputs: clean and noisy streams over a 7-value core (1..3 values, 4 separator kinds; thorough adds all pairs) plus three long ones (2500 rows, a 9000-character string, 700 noisy lines) faulted at the first and last 40 offsets and around 255, 256, 1 KiB, 4 KiB, 8 KiB, 16 KiB, 32 KiB, 64 KiB of the input and of the output; faults: the reader fails when asked for the byte at EVERY offset 0..=len (after 0,1,2 Interrupted results), Interrupted at every offset without failure, stdout fails after accepting EVERY number of bytes 0..len(out) (plain, with 1- and 3-byte short writes, with Interrupted on every 2nd call), stderr likewise under --on-error=stderr, unopenable files in every position of a file list; x 4 policies x 4 pipelines (streaming, select, sort, group); non-trivial = the fault offset falls strictly inside the input/output; distinct by construction",
+        rule: "inputs: clean and noisy streams over a 7-value core (1..3 values, 4 separator kinds; thorough adds all pairs) plus three long ones (2500 rows, a 9000-character string, 700 noisy lines) faulted at the first and last 40 offsets and around 255, 256, 1 KiB, 4 KiB, 8 KiB, 16 KiB, 32 KiB, 64 KiB of the input and of the output; faults: the reader fails when asked for the byte at EVERY offset 0..=len (after 0,1,2 Interrupted results; for inputs of <=60 bytes also with 8 other io::ErrorKinds: BrokenPipe, ConnectionReset, ConnectionAborted, UnexpectedEof, TimedOut, WouldBlock, InvalidData, PermissionDenied), Interrupted at every offset without failure, stdout fails after accepting EVERY number of bytes 0..len(out) (plain, with 1- and 3-byte short writes, with Interrupted on every 2nd call), stderr likewise under --on-error=stderr, unopenable files in every position of a file list; x 4 policies x 4 pipelines (streaming, select, sort, group); non-trivial = the fault offset falls strictly inside the input/output; distinct by construction",
         explanation: "every fault point of every history is enumerated on the real code with fault-injecting Read/Write implementations; oracle: Err (not Ok, not a panic), the reader is never asked again after its failure, stdout is a prefix of the fault-free stdout; a fault the fault-free run never reaches must change nothing",
         assumptions: COMMON_ASSUMPTIONS.to_vec(),
-        guards: vec!["fault-beyond-8192", "read-fault-inside-value", "read-fault-at-eof", "write-fault-inside-row", "interrupted-then-error", "short-writes", "stderr-write-fault", "missing-file"],
+        guards: vec!["other-error-kinds", "raw-utf8-row-longer-than-60-bytes", "fault-beyond-8192", "read-fault-inside-value", "read-fault-at-eof", "write-fault-inside-row", "interrupted-then-error", "short-writes", "stderr-write-fault", "missing-file"],
         budget_s: (100, 1800),
         single_worker: false,
         run,
@@ -20,11 +20,14 @@ pub fn prop() -> Prop {
 }
 
 const POLICIES: [&str; 4] = ["ignore", "stdout", "stderr", "panic"];
-const PIPES: [(&str, &[&str], bool); 4] = [
+const PIPES: [(&str, &[&str], bool); 7] = [
     ("stream", &[], true),
     ("select", &["--select=.=v", "--select=(size .)=n"], true),
     ("sort", &["--sort-by=(stringify .)"], false),
     ("group", &["--group-by=(stringify .)"], false),
+    ("utf8", &["--utf8-strings"], true),
+    ("text", &["--output-style=text"], true),
+    ("csv", &["--output-style=csv", "--select=.=v"], true),
 ];
 const CORE: [&str; 7] = ["1", "\"aé\"", "[1,{\"b\":null}]", "{\"k\":\"v\",\"n\":[2]}", "true", "-2.5e3", "null"];
 
@@ -49,6 +52,10 @@ fn inputs(tier: Tier) -> Vec<Vec<u8>> {
     // noisy streams
     for n in ["} 1 ] 2", "1 x \"a\" , [1] :", "nul 1 tru {\"a\":} 2", "\"abc", "[1,2", "1 \u{e9} 2"] {
         v.push(n.to_string());
+    }
+    // rows longer than 60 bytes that are mostly multi-byte characters (2-, 3- and 4-byte), at every alignment
+    for pad in 0..4usize {
+        v.push(format!("\"{}{}\" [\"{}{}\"]", "a".repeat(pad), "\u{e9}".repeat(45), "b".repeat(pad), "\u{20ac}\u{10348}".repeat(12)));
     }
     // long inputs / outputs (faults at the size thresholds only, see `offsets`)
     v.push((0..2500).map(|i| format!("{{\"i\":{i}}}\n")).collect::<String>());
@@ -103,22 +110,32 @@ fn run(ctx: &mut Ctx) {
                     ctx.violation("panic", &format!("fault-free {}", sig_args(policy, pname)), &[base.clone()], "no panic".into(), ff.brief());
                     continue;
                 }
+                if ["utf8", "text", "csv"].contains(pname) && ff.stdout.len() > 60 && !ff.stdout.is_ascii() {
+                    ctx.guard("raw-utf8-row-longer-than-60-bytes");
+                }
                 let reached_eof = ff.read_calls > ff.bytes_pulled;
                 // ---- read faults at every offset
                 for k in offsets(input.len() + 1) {
-                    for j in 0..3u32 {
+                    // j = 0: plain failure; 1, 2: after that many Interrupted results; 3..: other io::ErrorKinds
+                    const KINDS: [&str; 8] = ["BrokenPipe", "ConnectionReset", "ConnectionAborted", "UnexpectedEof", "TimedOut", "WouldBlock", "InvalidData", "PermissionDenied"];
+                    let jmax = if input.len() <= 60 { 3 + KINDS.len() as u32 } else { 3 };
+                    for j in 0..jmax {
                         let mut c = base.clone();
                         c.rplan = ReadPlan {
                             fail_at: Some(k),
-                            kind: if j == 0 { FaultKind::Error } else { FaultKind::InterruptedThenError(j) },
+                            kind: if j == 0 || j >= 3 { FaultKind::Error } else { FaultKind::InterruptedThenError(j) },
+                            error_kind: if j >= 3 { KINDS[(j - 3) as usize].to_string() } else { String::new() },
                             ..ReadPlan::default()
                         };
+                        if j >= 3 {
+                            ctx.guard("other-error-kinds");
+                        }
                         let o = ctx.run(&c);
                         ctx.case_done();
                         ctx.trace_validated();
                         ctx.state(&("read", pname, policy, k.min(40), j));
                         let hit = k < ff.bytes_pulled || (k == input.len() && reached_eof);
-                        if j > 0 {
+                        if j > 0 && j < 3 {
                             ctx.guard("interrupted-then-error");
                         }
                         if k == input.len() && hit {
